@@ -12,6 +12,12 @@
 //!      position is `first` / `first_extension`; permutation independence (a second layout of the same items that
 //!      keeps the relative order of same-key extensions gives the same outcome modulo positions).
 //!
+//! CLI leg (`c11/cli_leg.rs`): the same kind of case written to a scratch project and run through the real
+//! `nitrogql-cli generate` (files concatenated, built-ins appended by the CLI); judged in O (`cli:*` signatures) by the
+//! Lean reference merge of (files ++ built-ins): error iff duplicate-original / orphan-extension with the built-ins
+//! counted as definitions, emitted schema (serverGraphqlOutput) = reference merge, diagnostic at an offending item,
+//! same outcome for a permuted layout.
+//!
 //! How the error fields are obtained: `resolve_schema_extensions` returns `ExtensionError`, whose type (and the
 //! `ExtensionErrorMessage` enum) lives in a private module and is not re-exported by nitrogql_semantics, so the
 //! variants cannot be named in a `match`. The `message` field itself is reachable (`e.message`), and it derives Debug:
